@@ -50,6 +50,7 @@ type vSpec struct {
 	Dep     bool     `json:"dep"`
 	Legacy  string   `json:"legacy"`
 	Bad     bool     `json:"bad"`
+	Blank   bool     `json:"blank"`
 }
 
 type vAct struct {
@@ -131,6 +132,10 @@ func vMakeService(s string, raw json.RawMessage) *v1.Service {
 	}
 	if sp.Share != "" {
 		ann[kShare] = sp.Share
+	} else if sp.Blank {
+		// sharing switched off by a present, empty stable annotation; a left-over deprecated one carries a key
+		ann[AnnotationAllowSharedIP] = ""
+		ann[DeprecatedAnnotationAllowSharedIP] = "k1"
 	}
 	if len(sp.ReqIPs) == 1 && !sp.Dep {
 		svc.Spec.LoadBalancerIP = kit.IP(sp.ReqIPs[0]).String()
